@@ -4,11 +4,13 @@ so that two programs which differ only by them are analysed as the same program.
   1. private helpers are inlined at their direct call sites: module-level functions, methods of a class of the same
      module and nested functions whose name starts with one underscore, which are small, not recursive, not generators
      and are not anchors of the analyser (ANCHORS: private functions the rules name).  A helper that is one return
-     expression is inlined inside expressions; a structured one (if / for / raise, returns in tail position) is inlined
-     where its call is the whole value of an expression statement, an assignment or a return.
+     expression is inlined inside expressions; a structured one (if / for / raise, returns in tail position) that does
+     not take `self` is inlined where its call is the whole value of an expression statement, an assignment or a return.
   2. a local assigned exactly once from a pure expression of stable operands is replaced by that expression at its uses
-     (copy propagation); parallel assignments of tuples are split first.
-  3. `if c: x = a  else: x = b` becomes `x = a if c else b`.
+     (copy propagation); parallel assignments of tuples are split first.  Locals whose name carries an axis or role
+     tag (il, xl, z, trace, header) are kept: the axis rules read those names as the code's own type annotations.
+     Locals that are indexed or dotted anywhere (buffers, arrays, tuples, handles) are kept as well.
+  3. `x = a if c else b` becomes `if c: x = a  else: x = b`; likewise `return a if c else b`.
   4. a `for` over a literal tuple of tuples (or of expressions) whose body neither breaks nor continues is unrolled.
   5. `else` after a block that always leaves (return / raise / continue / break) is flattened.
   6. private module constants with a literal integer/string value are folded.
@@ -63,8 +65,12 @@ def U(n):
         return '<?>'
 
 
+def skip(step):
+    return step in os.environ.get('SGZ_NORM_SKIP', '').split(',')
+
+
 def enabled():
-    return os.environ.get('SGZ_NORM', '0') != '0'
+    return os.environ.get('SGZ_NORM', '1') != '0'
 
 
 # ---------------------------------------------------------------------------
@@ -125,6 +131,18 @@ class _Subst(ast.NodeTransformer):
                     x.col_offset = getattr(n, 'col_offset', 0)
                     x.end_col_offset = getattr(n, 'end_col_offset', 0)
             return new
+        return n
+
+
+class _Fold(ast.NodeTransformer):
+    """(a, b, c)[1] -> b ; len((a, b, c)) -> 3"""
+    def visit_Subscript(self, n):
+        self.generic_visit(n)
+        if isinstance(n.ctx, ast.Load) and isinstance(n.value, ast.Tuple) and isinstance(n.slice, ast.Constant) and \
+                isinstance(n.slice.value, int) and not isinstance(n.slice.value, bool) and \
+                -len(n.value.elts) <= n.slice.value < len(n.value.elts) and \
+                not any(isinstance(e, ast.Starred) for e in n.value.elts):
+            return n.value.elts[n.slice.value]
         return n
 
 
@@ -271,10 +289,13 @@ class ModuleNormaliser:
                 if self.consts:
                     self.fold_consts(fn)
                 fn.body = self.struct_block(fn.body, fn)
-                self.inline_calls(fn, cls)
-                self.split_parallel(fn)
-                self.copy_prop(fn, cls)
+                if not skip('inline'):
+                    self.inline_calls(fn, cls)
+                if not skip('copyprop'):
+                    self.split_parallel(fn)
+                    self.copy_prop(fn, cls)
                 self.drop_dead_nested(fn)
+                fn.body = [_Fold().visit(st) for st in fn.body]
                 if ast.dump(fn) == before:
                     break
         finally:
@@ -305,7 +326,7 @@ class ModuleNormaliser:
                 for h in s.handlers:
                     h.body = self.struct_block(h.body, fn)
             # 5. else after a block that always leaves
-            if isinstance(s, ast.If) and s.orelse and _terminates(s.body):
+            if isinstance(s, ast.If) and s.orelse and _terminates(s.body) and not skip('flatten'):
                 rest = s.orelse
                 s.orelse = []
                 body[i + 1:i + 1] = rest
@@ -314,22 +335,32 @@ class ModuleNormaliser:
                 out.append(s)
                 i += 1
                 continue
-            # 3. two-armed assignment
-            if isinstance(s, ast.If) and len(s.body) == 1 and len(s.orelse) == 1 and \
-                    isinstance(s.body[0], ast.Assign) and isinstance(s.orelse[0], ast.Assign) and \
-                    len(s.body[0].targets) == 1 and len(s.orelse[0].targets) == 1 and \
-                    isinstance(s.body[0].targets[0], ast.Name) and isinstance(s.orelse[0].targets[0], ast.Name) and \
-                    s.body[0].targets[0].id == s.orelse[0].targets[0].id:
-                new = ast.Assign(targets=[s.body[0].targets[0]],
-                                 value=ast.IfExp(test=s.test, body=s.body[0].value, orelse=s.orelse[0].value))
+            # 3. a conditional expression that is the whole value of an assignment / return becomes a statement
+            if not skip('ifstmt') and isinstance(s, (ast.Assign, ast.Return)) and isinstance(s.value, ast.IfExp) and \
+                    (isinstance(s, ast.Return) or len(s.targets) == 1):
+                ie = s.value
+                if isinstance(s, ast.Return):
+                    tb, fb = ast.Return(value=ie.body), ast.Return(value=ie.orelse)
+                else:
+                    tb = ast.Assign(targets=[copy.deepcopy(s.targets[0])], value=ie.body)
+                    fb = ast.Assign(targets=[copy.deepcopy(s.targets[0])], value=ie.orelse)
+                ast.copy_location(tb, ie.body)
+                ast.copy_location(fb, ie.orelse)
+                noop = lambda a: isinstance(a, ast.Assign) and isinstance(a.value, ast.Name) and U(a.targets[0]) == a.value.id
+                if noop(tb) and noop(fb):
+                    new = ast.copy_location(ast.Pass(), s)
+                elif noop(fb):
+                    new = ast.If(test=ie.test, body=[tb], orelse=[])
+                elif noop(tb):
+                    new = ast.If(test=ast.copy_location(ast.UnaryOp(op=ast.Not(), operand=ie.test), ie.test), body=[fb], orelse=[])
+                else:
+                    new = ast.If(test=ie.test, body=[tb], orelse=[fb])
                 ast.copy_location(new, s)
-                ast.copy_location(new.value, s)
-                self.log.append(('ifexp', fn.name, s.lineno))
-                out.append(new)
-                i += 1
+                self.log.append(('if-stmt', fn.name, s.lineno))
+                body[i:i + 1] = [new]
                 continue
             # 4. unroll a loop over a literal tuple
-            if isinstance(s, ast.For) and isinstance(s.iter, (ast.Tuple, ast.List)) and not s.orelse and \
+            if not skip('unroll') and isinstance(s, ast.For) and isinstance(s.iter, (ast.Tuple, ast.List)) and not s.orelse and \
                     1 <= len(s.iter.elts) <= 8 and not any(isinstance(x, (ast.Break, ast.Continue)) for b in s.body for x in ast.walk(b)) and \
                     not any(isinstance(e, ast.Starred) for e in s.iter.elts):
                 un = self.unroll(s, fn)
@@ -438,6 +469,8 @@ class ModuleNormaliser:
             for name, ss in sorted(sites.items()):
                 if len(ss) != 1 or name in params:
                     continue
+                if _typed_name(name):
+                    continue
                 d = ss[0]
                 if not (isinstance(d, ast.Assign) and len(d.targets) == 1 and isinstance(d.targets[0], ast.Name)):
                     continue
@@ -452,6 +485,9 @@ class ModuleNormaliser:
                 uses = [x for x in _all_nodes(fn) if isinstance(x, ast.Name) and x.id == name and isinstance(x.ctx, ast.Load)]
                 # every use after the definition, in its block
                 if not all(index.after(d, u) for u in uses):
+                    continue
+                # a local that is indexed or dotted is an object (buffer, array, tuple, handle): it stays named
+                if any(isinstance(x, (ast.Subscript, ast.Attribute)) and x.value in uses for x in _all_nodes(fn)):
                     continue
                 # do not propagate into the value of an AugAssign target etc. (loads only) - fine
                 sub = _Subst({name: d.value})
@@ -585,7 +621,11 @@ class ModuleNormaliser:
                 return None
         if len(body) == 1 and isinstance(body[0], ast.Return) and body[0].value is not None:
             return 'expr'
-        # structured: returns only in tail position
+        # structured: returns only in tail position.  Methods that take `self` and need statements are the classes' own
+        # steps (parse the sizes, check the subscripts ..): rules follow them through the call graph; only stateless
+        # utilities (module functions, static methods, nested functions) are dissolved.
+        if kind == 'method':
+            return None
         if self.tail_returns(body):
             return 'stmt'
         return None
@@ -801,6 +841,20 @@ class ModuleNormaliser:
         if d is None or isinstance(d, ast.Expr):
             return [ast.Pass()]
         return [d]
+
+
+def _typed_name(name):
+    """locals whose name carries an axis or role tag (il / xl / z / trace ..) are the code's own type annotations:
+    the axis rules read them, so they are kept as named definitions."""
+    from .axes import axis_of_text
+    n = name.lower()
+    if axis_of_text(name) is not None or 'trace' in n or 'header' in n or 'shape' in n or 'rate' in n or 'bits' in n:
+        return True
+    try:
+        from .axes import role_of
+        return role_of(ast.Name(id=name, ctx=ast.Load())) is not None
+    except Exception:
+        return False
 
 
 def _is_private_or_nested(s, fn):
